@@ -4,13 +4,22 @@ import valida.datapath
 
 
 def set_datum(data, data_path, datum):
+    """Set `datum` within (nested) `data` at the concrete path `data_path`, which is either
+    a concrete `DataPath` or a sequence of map keys/list indices."""
 
-    for part in data_path.parts[:-1]:
-        idx = part.condition.callable.kwargs["value"]
+    if isinstance(data_path, valida.datapath.DataPath):
+        keys = data_path.simplify()
+    else:
+        keys = tuple(data_path)
+
+    if not keys:
+        # the root itself cannot be replaced in-place
+        return
+
+    for idx in keys[:-1]:
         data = data[idx]
 
-    idx = data_path.parts[-1].condition.callable.kwargs["value"]
-    data[idx] = datum
+    data[keys[-1]] = datum
 
 
 class Data:
